@@ -87,6 +87,7 @@ type fnv struct {
 	curPos        token.Pos
 	pendingPanics []*State
 	litOfVar      map[types.Object]*ast.FuncLit
+	activeLoops   map[int]*loopCtx
 }
 
 type rangedMap struct {
